@@ -15,6 +15,9 @@
 #include "base/convert.hpp"
 #include "base/statsfunction.hpp"
 #include <chrono>
+#ifdef ICINGA2_VERIF
+#include "base/verif-hooks.hpp"
+#endif /* ICINGA2_VERIF */
 
 using namespace icinga;
 
@@ -175,6 +178,9 @@ void CheckerComponent::CheckThreadProc()
 		/* reschedule the checkable if checks are disabled */
 		if (!check) {
 			m_IdleCheckables.insert(GetCheckableScheduleInfo(checkable));
+#ifdef ICINGA2_VERIF
+			VERIF_POINT("sched.skip", checkable.get());
+#endif /* ICINGA2_VERIF */
 			lock.unlock();
 
 			Log(LogDebug, "CheckerComponent")
@@ -203,8 +209,14 @@ void CheckerComponent::CheckThreadProc()
 			<< " (" << std::fixed << std::setprecision(0) << csi.NextCheck << ").";
 
 		m_PendingCheckables.insert(csi);
+#ifdef ICINGA2_VERIF
+		VERIF_POINT(forced ? "sched.pick.forced" : "sched.pick", checkable.get());
+#endif /* ICINGA2_VERIF */
 
 		lock.unlock();
+#ifdef ICINGA2_VERIF
+		VERIF_POINT("sched.dispatch", checkable.get());
+#endif /* ICINGA2_VERIF */
 
 		if (forced) {
 			ObjectLock olock(checkable);
@@ -230,6 +242,9 @@ void CheckerComponent::CheckThreadProc()
 
 void CheckerComponent::ExecuteCheckHelper(const Checkable::Ptr& checkable)
 {
+#ifdef ICINGA2_VERIF
+	VERIF_POINT("helper.start", checkable.get());
+#endif /* ICINGA2_VERIF */
 	try {
 		checkable->ExecuteCheck();
 	} catch (const std::exception& ex) {
@@ -250,6 +265,9 @@ void CheckerComponent::ExecuteCheckHelper(const Checkable::Ptr& checkable)
 		Log(LogCritical, "checker", output);
 	}
 
+#ifdef ICINGA2_VERIF
+	VERIF_POINT("helper.dec", checkable.get());
+#endif /* ICINGA2_VERIF */
 	Checkable::DecreasePendingChecks();
 
 	{
@@ -268,6 +286,9 @@ void CheckerComponent::ExecuteCheckHelper(const Checkable::Ptr& checkable)
 
 			m_CV.notify_all();
 		}
+#ifdef ICINGA2_VERIF
+		VERIF_POINT("helper.finish", checkable.get());
+#endif /* ICINGA2_VERIF */
 	}
 
 	Log(LogDebug, "CheckerComponent")
@@ -312,6 +333,9 @@ void CheckerComponent::ObjectHandler(const ConfigObject::Ptr& object)
 		}
 
 		m_CV.notify_all();
+#ifdef ICINGA2_VERIF
+		VERIF_POINT("object.done", checkable.get());
+#endif /* ICINGA2_VERIF */
 	}
 }
 
@@ -340,6 +364,9 @@ void CheckerComponent::NextCheckChangedHandler(const Checkable::Ptr& checkable)
 
 	CheckableScheduleInfo csi = GetCheckableScheduleInfo(checkable);
 	idx.insert(csi);
+#ifdef ICINGA2_VERIF
+	VERIF_POINT("nextcheck.reindex", checkable.get());
+#endif /* ICINGA2_VERIF */
 
 	m_CV.notify_all();
 }
